@@ -164,13 +164,13 @@ parser! {
             }
 
         pub rule reg8() -> Reg8
-            = r_name:$(['r' | 'R'] ['0'..='9']*<1,2>) {? Reg8::from_str(r_name.to_lowercase().as_str()).or(Err("register r0..r31")) }
+            = r_name:$(['r' | 'R'] ['0'..='9']*<1,2>) !char_ident() {? Reg8::from_str(r_name.to_lowercase().as_str()).or(Err("register r0..r31")) }
 
         pub rule reg16() -> Reg16
             = r_name:$(['x' | 'y' | 'z' | 'X' | 'Y' | 'Z']) { Reg16::from_str(r_name.to_lowercase().as_str()).unwrap() }
 
         pub rule index_ops() -> IndexOps
-            = "-" r:reg16() { IndexOps::PreDecrement(r) }
+            = "-" r:reg16() !char_ident() { IndexOps::PreDecrement(r) }
             / r:reg16() "+" e:expr() { IndexOps::PostIncrementE(r, e) }
             / r:reg16() "+" { IndexOps::PostIncrement(r) }
             / r:reg16() !char_ident() { IndexOps::None(r) }
